@@ -13,7 +13,7 @@ use neurons::tensor::{Shape, Tensor};
 pub fn meta(ctx: &Ctx) -> Meta {
     let t = ctx.tier.thorough();
     Meta {
-        rule: format!("builder as a state machine: every layer sequence of <= {} tokens from {{dense,conv,deconv,pool,feedback}} over 5 input shapes with <= {} configuration deviations{}; in every state: announced (input,output) shape of every layer vs the size formulas, a real forward pass on pairwise-distinct data (pre-activation shape = announced, handed-on shape = announced or its flattening, recorded shape = nesting), a real backward pass (gradient shapes = parameter shapes). Flat->spatial: EVERY flat size n in 1..{} in front of each of the three spatial layer kinds (and, for n <= 1024, in front of a feedback block starting with each of them) must be accepted iff n is a perfect square (also, through the layers' public constructors, the sizes r^2-2..r^2+2 for roots around 4096, 5793, 8192, 46341 and 65536, i.e. flat sizes from 2^24 to 2^32), and then a 1x1 identity kernel / 1x1 pool must reproduce the vector as 1 x r x r in row-major order. Non-trivial = state with >= 2 layers or a flat size >= 2",
+        rule: format!("builder as a state machine: every layer sequence of <= {} tokens from {{dense,conv,deconv,pool,feedback}} over 5 input shapes with <= {} configuration deviations{}; in every state: announced (input,output) shape of every layer vs the size formulas, a real forward pass on pairwise-distinct data (pre-activation shape = announced, handed-on shape = announced or its flattening, recorded shape = nesting), a real backward pass (gradient shapes = parameter shapes). Flat->spatial: EVERY flat size n in 1..{} in front of each of the three spatial layer kinds (and, for n <= 1024, in front of a feedback block starting with each of them) must be accepted iff n is a perfect square (also, through the layers' public constructors, the sizes r^2-2..r^2+2 for roots around 4096, 5793, 8192, 46341 and 65536, i.e. flat sizes from 2^24 to 2^32), and then a 1x1 identity kernel / 1x1 pool must reproduce the vector as 1 x r x r in row-major order; and for r in 2..5 EVERY configuration of the spatial layer (kernel 1..3, stride 1..2, padding 0..2, dilation 1..2 per axis, two filters; deconvolution and max-pool likewise) behind dense(r*r) must be accepted iff it is accepted behind a 1 x r x r input and then compute bit for bit what it computes on the same values given as that tensor. Non-trivial = state with >= 2 layers or a flat size >= 2",
             if t { 3 } else { 3 }, if t { 2 } else { 1 }, if t { "; plus sequences of 4 tokens with <= 1 deviation" } else { "" }, if t { 65536 } else { 4096 }),
         bound: "depth <= 3 (4 in thorough at one deviation); kernels <= 3, strides <= 2(3), paddings <= 2, dilations <= 2".into(),
         exhaustive: true,
@@ -286,6 +286,98 @@ pub fn check_flat(n: usize, kind: &str, case: &Kv, rep: &mut Report) {
     let _ = flat;
 }
 
+/// flat -> spatial transition under a GENERAL configuration of the spatial layer: dense(r*r) followed by the layer must
+/// compute, bit for bit, what the same layer (same parameters) computes on the same r*r values given as a 1 x r x r tensor;
+/// and the two builders accept / reject the configuration alike. A differential with no hand-written expectation.
+pub fn check_flat_config(r: usize, l: &L, case: &Kv, rep: &mut Report) {
+    rep.states += 1;
+    rep.evaluations += 1;
+    rep.nontrivial += 1;
+    rep.transitions += 2;
+    let n = r * r;
+    let mut a = Network::new(Shape::Single(1));
+    a.dense(n, neurons::activation::Activation::Linear, false, None);
+    let mut b = Network::new(Shape::Triple(1, r, r));
+    let (ra, rb) = (guard(|| libnet::add_layer(&mut a, l)), guard(|| libnet::add_layer(&mut b, l)));
+    match (ra, rb) {
+        (Err(_), Err(_)) => {
+            rep.count("flat_config_rejected_by_both", 1);
+            return;
+        }
+        (Ok(()), Ok(())) => (),
+        (x, _) => {
+            rep.violate(
+                "C08 flat and spatial builders disagree on a configuration",
+                format!("{} after dense({}) {} but after a 1x{}x{} input {}", l.name(), n, if x.is_ok() { "accepted" } else { "rejected" }, r, r, if x.is_ok() { "rejected" } else { "accepted" }),
+                case,
+            );
+            return;
+        }
+    }
+    let (sa, sb) = (neurons::verif::shapes(&a), neurons::verif::shapes(&b));
+    if dims_of(&sa[1].0) != Some(Dims::Chw(1, r, r)) || sa[1].1 != sb[0].1 {
+        rep.violate("C08 flat -> spatial announced shapes differ from the spatial case", format!("{}: flat {:?} -> {:?}, spatial {:?} -> {:?}", l.name(), sa[1].0, sa[1].1, sb[0].0, sb[0].1), case);
+        return;
+    }
+    if dims_of(&sb[0].1).map(|d| d.count()) == Some(0) {
+        // a padding that crops the deconvolution's output to nothing: not a valid configuration in the statement's sense
+        rep.count("flat_config_with_an_empty_output_skipped", 1);
+        return;
+    }
+    let w: Vec<f32> = (0..n).map(|i| (i + 1) as f32).collect();
+    let mut pa = neurons::verif::params(&a);
+    pa[0].weights = vec![libnet::matrix(n, 1, &w)];
+    let mut pb = neurons::verif::params(&b);
+    pb[0] = pa[1].clone();
+    neurons::verif::set_params(&mut a, &pa);
+    neurons::verif::set_params(&mut b, &pb);
+    let fa = guard(|| a.forward(&Tensor::single(vec![1.0]))).and_then(|(_, post, _, _)| flat_dims(&post[2]));
+    let fb = guard(|| b.forward(&tensor(Dims::Chw(1, r, r), &w))).and_then(|(_, post, _, _)| flat_dims(&post[1]));
+    match (fa, fb) {
+        (Ok((da, va)), Ok((db, vb))) => {
+            if da != db || !crate::util::bits_eq(&va, &vb) {
+                let at = va.iter().zip(&vb).position(|(x, y)| x.to_bits() != y.to_bits());
+                rep.violate(
+                    "C08 flat -> 1xrxr transition changes what the spatial layer computes",
+                    format!("{} on dense({}) vs on the same values as 1x{}x{}: {} vs {}, first difference at {:?}", l.name(), n, r, r, da.name(), db.name(), at.map(|i| (i, va[i], vb[i]))),
+                    case,
+                );
+            } else if va.iter().any(|x| *x != 0.0) {
+                rep.count("flat_config_bit_equal_nonzero", 1);
+            }
+        }
+        (Err(e), _) | (_, Err(e)) => rep.violate("C08 flat -> spatial forward fails under a general configuration", format!("{}: {}", l.name(), crate::util::first_line(&e)), case),
+    }
+}
+
+pub fn flat_configs(thorough: bool) -> Vec<(usize, L)> {
+    let mut out = Vec::new();
+    let rs: Vec<usize> = if thorough { vec![2, 3, 4, 5, 7] } else { vec![2, 3, 4, 5] };
+    let ks: Vec<usize> = if thorough { vec![1, 2, 3, 4] } else { vec![1, 2, 3] };
+    for &r in &rs {
+        for &k0 in &ks {
+            for &k1 in &ks {
+                for s0 in 1..=2usize {
+                    for s1 in 1..=2usize {
+                        out.push((r, L::Pool { k: (k0, k1), s: (s0, s1) }));
+                        for p0 in 0..=2usize {
+                            for p1 in 0..=2usize {
+                                out.push((r, L::Deconv { f: 2, k: (k0, k1), s: (s0, s1), p: (p0, p1), act: Act::Linear, drop: None }));
+                                for d0 in 1..=2usize {
+                                    for d1 in 1..=2usize {
+                                        out.push((r, L::Conv { f: 2, k: (k0, k1), s: (s0, s1), p: (p0, p1), d: (d0, d1), act: Act::Linear, drop: None }));
+                                    }
+                                }
+                            }
+                        }
+                    }
+                }
+            }
+        }
+    }
+    out
+}
+
 pub fn run(ctx: &Ctx) -> Report {
     let t = ctx.tier.thorough();
     let mut nets = sequences(&INPUTS, 3, if t { 2 } else { 1 }, &TOKS);
@@ -327,6 +419,19 @@ pub fn run(ctx: &Ctx) -> Report {
     });
     rep.merge_all(parts);
     rep.count("flat_sizes", max_n as u64);
+    // flat -> spatial under the full configuration lattice of the spatial layer (differential against the spatial input)
+    let fcs = flat_configs(t);
+    let chunks: Vec<&[(usize, L)]> = fcs.chunks(64).collect();
+    let parts = par_map(&chunks, |_, c| {
+        let mut r = Report::new();
+        for (root, l) in c.iter() {
+            let case = Kv::new().put("kind", "flatcfg").put("r", root).put("layer", l.name());
+            check_flat_config(*root, l, &case, &mut r);
+        }
+        r
+    });
+    rep.merge_all(parts);
+    rep.count("flat_configurations", fcs.len() as u64);
     // around the squares of roots near 4096 (2^24), 5793 (2^25), 8192, 46341 (2^31), 65536 (2^32): r^2 - 2 .. r^2 + 2
     for r in (4090usize..=4104).chain(5790..=5796).chain(8190..=8194).chain([11585, 16384, 23170, 46340, 46341, 65535, 65536]) {
         for d in -2i64..=2 {
@@ -350,6 +455,9 @@ pub fn replay(ctx: &Ctx, case: &Kv) -> Report {
     let mut r = Report::new();
     match case.get("kind") {
         "flat" => check_flat(case.usize("n"), case.get("layer"), case, &mut r),
+        "flatcfg" => {
+            check_flat_config(case.usize("r"), &L::parse(case.get("layer")), case, &mut r)
+        }
         "bigflat" => check_big_flat(case.usize("n"), case.get("layer"), case, &mut r),
         _ => check_net(&Net::parse(case.get("net")), ctx.seed, case, &mut r),
     }
